@@ -43,3 +43,16 @@ def redescribe_units(sky, idx):
             v = v.to([u.arcmin, u.deg, u.rad, u.arcsec][(idx // 3) % 4])
         kw[pn] = v
     return type(sky)(**kw, meta=sky.meta.copy(), visual=sky.visual.copy())
+
+
+def make_sip_wcs(scale=3e-4, rot=(3, 4, 5), crval=(150.0, 20.0), crpix=(20.0, 20.0), strength=2e-4):
+    """An invertible TAN-SIP WCS (quadratic distortion terms): positions converted with mode='wcs' differ from mode='all'."""
+    import numpy as np
+    from astropy.wcs import Sip
+    ws = make_wcs(scale, rot, 1, 'icrs', 'TAN', crval, crpix)
+    ws.wcs.ctype = ['RA---TAN-SIP', 'DEC--TAN-SIP']
+    a = np.zeros((3, 3))
+    b = np.zeros((3, 3))
+    a[2, 0], a[0, 2], b[1, 1], b[2, 0] = strength, -strength / 2, strength, strength / 3
+    ws.sip = Sip(a, b, None, None, list(crpix))
+    return ws
